@@ -16,6 +16,9 @@ type G struct {
 	Elems, Attrs, Texts []string
 	Prefixes            []string // "" = unprefixed
 	URIs                map[string]string
+	// NoDiv: draw no 'div' (quotients may leave the exact number model of the specification, which
+	// cannot be skipped per candidate inside a predicate)
+	NoDiv bool
 }
 
 // New returns a generator with the default alphabets.
@@ -144,4 +147,234 @@ func min(a, b int) int {
 		return a
 	}
 	return b
+}
+
+// ---------------------------------------------------------------------------
+// Expressions inside the fragments of C02/C03 (predicates) and C07/C08/C09
+// (values), deeper than the exhaustive pools.
+
+func num(i int64) *xast.Expr { return &xast.Expr{T: "num", V: &xast.Num{C: "fin", N: i}} }
+func lit(s string) *xast.Expr { return &xast.Expr{T: "lit", S: s} }
+func call(f string, a ...*xast.Expr) *xast.Expr { return &xast.Expr{T: "call", F: f, Args: a} }
+func bin(op string, l, r *xast.Expr) *xast.Expr { return &xast.Expr{T: "bin", Op: op, L: l, R: r} }
+
+var forwardAxes = []string{"child", "child", "descendant", "descendant-or-self", "attribute", "self", "following", "following-sibling", "parent"}
+
+// relPath draws a relative predicate-free path of 1..max steps.
+func (g *G) relPath(max int, forwardOnly bool) *xast.Expr {
+	n := 1 + g.R.Intn(max)
+	e := &xast.Expr{T: "path"}
+	for i := 0; i < n; i++ {
+		var ax string
+		if forwardOnly {
+			ax = g.pick(forwardAxes)
+		} else {
+			ax = g.pick(axesW)
+		}
+		e.Steps = append(e.Steps, xast.Step{Ax: ax, Nt: g.NodeTest(ax)})
+	}
+	return e
+}
+
+// flatPath: child/attribute/self steps only (C12's flat fragment).
+func (g *G) flatPath(max int) *xast.Expr {
+	n := 1 + g.R.Intn(max)
+	e := &xast.Expr{T: "path"}
+	for i := 0; i < n; i++ {
+		ax := []string{"child", "child", "child", "self"}[g.R.Intn(4)]
+		if i == n-1 && g.R.Intn(4) == 0 {
+			ax = "attribute"
+		}
+		e.Steps = append(e.Steps, xast.Step{Ax: ax, Nt: g.NodeTest(ax)})
+	}
+	return e
+}
+
+// BoolPred draws a boolean-valued predicate of the C02 grammar with nesting <= depth.
+func (g *G) BoolPred(depth int) *xast.Expr {
+	pp := g.relPath(2, false)
+	if depth > 0 && g.R.Intn(3) == 0 {
+		// nested predicate on the last step of the predicate path
+		pp.Steps[len(pp.Steps)-1].Preds = []*xast.Expr{g.BoolPred(depth - 1)}
+	}
+	switch g.R.Intn(12) {
+	case 0, 1, 2:
+		return pp
+	case 3:
+		return bin("=", pp, lit(g.pick(g.Texts)))
+	case 4:
+		return bin("!=", pp, lit(g.pick(g.Texts)))
+	case 5:
+		return bin([]string{"<", "<=", ">", ">="}[g.R.Intn(4)], pp, num(int64(g.R.Intn(4))))
+	case 6:
+		return call("not", pp)
+	case 7:
+		if depth > 0 {
+			return bin([]string{"and", "or"}[g.R.Intn(2)], g.BoolPred(depth-1), g.BoolPred(depth-1))
+		}
+		return pp
+	case 8:
+		return bin([]string{"=", ">", "<"}[g.R.Intn(3)], call("count", pp), num(int64(g.R.Intn(3))))
+	case 9:
+		// string functions take the first node in DOCUMENT order: forward axes only (KF-C02-1)
+		return call([]string{"contains", "starts-with"}[g.R.Intn(2)], g.relPath(1, true), lit(g.pick([]string{"1", "x", "a", ""})))
+	case 10:
+		return bin("=", call("local-name"), lit(g.pick(g.Elems)))
+	}
+	return bin("=", &xast.Expr{T: "path", Steps: []xast.Step{{Ax: "self", Nt: xast.NT{K: "node"}}}}, lit(g.pick(g.Texts)))
+}
+
+// PosPred draws a positional predicate of the C03 grammar.
+func (g *G) PosPred() *xast.Expr {
+	n := int64(1 + g.R.Intn(3))
+	ops := []string{"=", "!=", "<", "<=", ">", ">="}
+	switch g.R.Intn(6) {
+	case 0, 1:
+		return num(n)
+	case 2:
+		return bin(ops[g.R.Intn(6)], call("position"), num(n))
+	case 3:
+		return bin(ops[g.R.Intn(6)], call("position"), call("last"))
+	case 4:
+		return call("last")
+	}
+	return bin("-", call("last"), num(int64(1+g.R.Intn(2))))
+}
+
+// PredPath draws a path whose steps carry predicates inside the C02/C03 fragments.
+func (g *G) PredPath() *xast.Expr {
+	e := g.Path(3)
+	for i := range e.Steps {
+		s := &e.Steps[i]
+		if s.Ax == "descendant-or-self" && s.Nt.K == "node" {
+			continue // keep '//' abbreviable
+		}
+		if g.R.Intn(2) == 0 {
+			continue
+		}
+		if s.Ax == "child" && g.R.Intn(3) == 0 {
+			s.Preds = append(s.Preds, g.PosPred()) // positional: only FIRST and only on child steps
+		}
+		for k := g.R.Intn(3); k > 0; k-- {
+			s.Preds = append(s.Preds, g.BoolPred(1))
+		}
+	}
+	return e
+}
+
+var exactNums = []*xast.Num{{C: "fin", N: 0}, {C: "fin", N: 1}, {C: "fin", N: 2}, {C: "fin", N: 3}, {C: "fin", N: 10}, {C: "fin", N: 1, K: 1},
+	{C: "fin", N: 1, K: 2}, {C: "fin", N: 3, K: 1}, {C: "fin", N: 7}, {C: "fin", N: 100}}
+
+// NumExpr draws an arithmetic expression (C08 fragment) of the given depth.
+func (g *G) NumExpr(depth int) *xast.Expr {
+	if depth == 0 || g.R.Intn(4) == 0 {
+		switch g.R.Intn(8) {
+		case 0:
+			return call("count", g.flatPath(2))
+		case 1:
+			return call("number", g.flatPath(2))
+		case 2:
+			return call("string-length", lit(g.pick([]string{"", "a", "abc", " x "})))
+		case 3:
+			return call("number", lit(g.pick([]string{"12", " 7 ", "x", "", "-0.5", "1e3", "5.", ".5", "-"})))
+		case 4:
+			return bin("div", num(int64(g.R.Intn(2))), num(0)) // NaN / Infinity (exact special values)
+		}
+		return &xast.Expr{T: "num", V: exactNums[g.R.Intn(len(exactNums))]}
+	}
+	switch g.R.Intn(9) {
+	case 0:
+		return &xast.Expr{T: "neg", E: g.NumExpr(depth - 1)}
+	case 1:
+		return call("floor", g.NumExpr(depth-1))
+	case 2:
+		return call("ceiling", g.NumExpr(depth-1))
+	}
+	op := []string{"+", "-", "*", "div", "+", "-", "*"}[g.R.Intn(7)]
+	if g.NoDiv && op == "div" {
+		op = "*"
+	}
+	return bin(op, g.NumExpr(depth-1), g.NumExpr(depth-1))
+}
+
+var strPool = []string{"", "a", "ab", "aba", "A b", " a  b ", "-", "12", "a-b", "B", "12345", "x"}
+
+// StrExpr draws a string-valued expression (C09 fragment).
+func (g *G) StrExpr(depth int) *xast.Expr {
+	if depth == 0 || g.R.Intn(3) == 0 {
+		if g.R.Intn(4) == 0 {
+			return call("string", g.flatPath(2))
+		}
+		return lit(g.pick(strPool))
+	}
+	switch g.R.Intn(9) {
+	case 0:
+		return call("concat", g.StrExpr(depth-1), g.StrExpr(depth-1))
+	case 1:
+		return call("substring-before", g.StrExpr(depth-1), g.StrExpr(depth-1))
+	case 2:
+		return call("substring-after", g.StrExpr(depth-1), g.StrExpr(depth-1))
+	case 3:
+		return call("normalize-space", g.StrExpr(depth-1))
+	case 4:
+		return call("lower-case", g.StrExpr(depth-1))
+	case 5:
+		return call("translate", g.StrExpr(depth-1), lit(g.pick([]string{"a", "ab", "ba-", ""})), lit(g.pick([]string{"", "x", "xy"})))
+	case 6:
+		a := &xast.Expr{T: "num", V: &xast.Num{C: "fin", N: int64(g.R.Intn(13)), K: g.R.Intn(2)}}
+		var s *xast.Expr = a
+		if g.R.Intn(3) == 0 {
+			s = &xast.Expr{T: "neg", E: a}
+		}
+		if g.R.Intn(2) == 0 {
+			return call("substring", g.StrExpr(depth-1), s)
+		}
+		return call("substring", g.StrExpr(depth-1), s, &xast.Expr{T: "num", V: &xast.Num{C: "fin", N: int64(g.R.Intn(9)), K: g.R.Intn(2)}})
+	case 7:
+		return call("string", g.NumSmall())
+	}
+	return call("string-join", g.flatPath(2), lit(g.pick([]string{"", ",", "-"})))
+}
+
+// NumSmall: numbers whose string() rendering is claimed (finite, below one million).
+func (g *G) NumSmall() *xast.Expr {
+	e := &xast.Expr{T: "num", V: exactNums[g.R.Intn(len(exactNums))]}
+	if g.R.Intn(3) == 0 {
+		return &xast.Expr{T: "neg", E: e}
+	}
+	if g.R.Intn(3) == 0 {
+		return bin([]string{"+", "-", "*"}[g.R.Intn(3)], e, &xast.Expr{T: "num", V: exactNums[g.R.Intn(len(exactNums))]})
+	}
+	return e
+}
+
+// BoolExpr draws a comparison / boolean expression inside the C07 type pairs.
+func (g *G) BoolExpr(depth int) *xast.Expr {
+	cmp := []string{"=", "!=", "<", "<=", ">", ">="}
+	eq := []string{"=", "!="}
+	if depth > 0 && g.R.Intn(3) == 0 {
+		switch g.R.Intn(3) {
+		case 0:
+			return bin([]string{"and", "or"}[g.R.Intn(2)], g.BoolExpr(depth-1), g.BoolExpr(depth-1))
+		case 1:
+			return call("not", g.BoolExpr(depth-1))
+		}
+		return call("boolean", g.flatPath(2))
+	}
+	switch g.R.Intn(6) {
+	case 0:
+		return bin(cmp[g.R.Intn(6)], g.NumExpr(1), g.NumExpr(1))
+	case 1:
+		return bin(cmp[g.R.Intn(6)], g.flatPath(2), g.NumExpr(1))
+	case 2:
+		return bin(cmp[g.R.Intn(6)], g.NumExpr(1), g.flatPath(2))
+	case 3:
+		return bin(eq[g.R.Intn(2)], g.StrExpr(1), g.StrExpr(1))
+	case 4:
+		if g.R.Intn(2) == 0 {
+			return bin(eq[g.R.Intn(2)], g.flatPath(2), g.StrExpr(1))
+		}
+		return bin(eq[g.R.Intn(2)], g.StrExpr(1), g.flatPath(2))
+	}
+	return bin(eq[g.R.Intn(2)], g.flatPath(2), g.flatPath(2))
 }
